@@ -5,7 +5,7 @@ from ..core import f2b, b2f
 from .. import samples as S, sample_checks as SC, kin
 
 MODULE = "Momtrop.Props.C02U"
-THEOREMS = ["Momtrop.C02.sum_between_max", "Momtrop.C02.weighted_between_max", "Momtrop.C02.ratio_bounds", "Momtrop.C07.greedy_max", "Momtrop.C07.greedySet_cotree", "Momtrop.C07.symanzik_U_bounds", "Momtrop.C02.U_premises", "Momtrop.C02.ratio_bounds_U", "Momtrop.C02.V_upper", "Momtrop.C07.mass_terms_le", "Momtrop.C07.momentum_terms_le"]
+THEOREMS = ["Momtrop.C02.sum_between_max", "Momtrop.C02.weighted_between_max", "Momtrop.C02.ratio_bounds", "Momtrop.C07.greedy_max", "Momtrop.C07.greedySet_cotree", "Momtrop.C07.symanzik_U_bounds", "Momtrop.C02.U_premises", "Momtrop.C02.U_premises_model", "Momtrop.C02.ratio_bounds_U", "Momtrop.C02.V_upper", "Momtrop.C07.mass_terms_le", "Momtrop.C07.momentum_terms_le"]
 RULE = ("accepted connected graphs (1..3 loops quick / 1..4 thorough, masses, several loops, unequal weights, graphs with >=3 components in "
         "subgraphs), generic dyadic kinematics; points: uniform, hypercube corners (2^-20..2^-40, 1-2^-53), every edge-choice coordinate "
         "pushed to 0 / 1-2^-53 (rare sectors); N_T, c_min, C_sum computed exactly per graph and kinematics; points whose exact kappa_V > 1e8 are "
